@@ -25,7 +25,10 @@ NSHARDS = 16
 
 def shard_args(tier, seed):
     n = BUDGET[tier] // NSHARDS
-    return [{"n": n, "seed": seed * 1000 + i, "tier": tier} for i in range(NSHARDS)]
+    shards = [{"n": n, "seed": seed * 1000 + i, "tier": tier} for i in range(NSHARDS)]
+    if tier == "thorough":
+        shards.append({"n": 0, "seed": seed, "tier": tier, "suite": True})    # the repository's own tests under the M-sid monitor
+    return shards
 
 
 def floors(m, tier):
@@ -134,6 +137,10 @@ def install(rec, model):
         if sid is None or sid == "" or (args[1:] and False):
             return
         if isinstance(sid, Sid):
+            if not sid:
+                # an UNTYPED Sid object is not a string: C01's statement does not cover it (counted, not judged)
+                rec.unspec("untyped_sid_object_argument")
+                return
             s = sid.uri
             origin = "Sid(Sid)"
         elif isinstance(sid, str):
@@ -164,6 +171,10 @@ def worker(args):
             pass
         return rec.result()
     rng = random.Random(args["seed"])
+    if args.get("suite"):
+        from lib import suite_shard
+        suite_shard.run_repo_tests(rec)
+        return rec.result()
     usable = [t for t in model.templates if vocab.usable(t)]
     lits = gen.all_values_of_other_levels(vocab, rng)
     n = args["n"]
